@@ -1,0 +1,156 @@
+//! Verification hooks. Compiled only with `--cfg cicada_verif`; nothing here is
+//! reachable in a normal build. The module (a) re-exports internal items so an
+//! external harness can drive them in-process, and (b) provides an injectable
+//! source of wait statuses ("fake kernel") for the job-control code.
+//! Nothing here changes behaviour unless a harness installs the fake kernel.
+
+use std::collections::VecDeque;
+use std::sync::Mutex;
+
+pub mod x {
+    //! facade: public items of the crate's private modules
+    pub mod shell { pub use crate::shell::*; }
+    pub mod types { pub use crate::types::*; }
+    pub mod parser_line { pub use crate::parsers::parser_line::*; }
+    pub mod locust { pub use crate::parsers::locust::*; }
+    pub mod execute { pub use crate::execute::*; }
+    pub mod core { pub use crate::core::*; }
+    pub mod scripting { pub use crate::scripting::*; }
+    pub mod jobc { pub use crate::jobc::*; }
+    pub mod signals { pub use crate::signals::*; }
+    pub mod tools { pub use crate::tools::*; }
+    pub mod calculator { pub use crate::calculator::*; }
+    pub mod history { pub use crate::history::*; }
+    pub mod highlight { pub use crate::highlight::*; }
+    pub mod completers { pub use crate::completers::*; }
+    pub mod completers_path { pub use crate::completers::path::*; }
+    pub mod prompt { pub use crate::prompt::*; }
+    pub mod libs_path { pub use crate::libs::path::*; }
+    pub mod libs_re { pub use crate::libs::re::*; }
+    pub mod b_fg { pub use crate::builtins::fg::*; }
+    pub mod b_bg { pub use crate::builtins::bg::*; }
+    pub mod b_jobs { pub use crate::builtins::jobs::*; }
+    pub mod b_history { pub use crate::builtins::history::*; }
+    pub mod b_utils { pub use crate::builtins::utils::*; }
+}
+
+/// One injected child status report: (pid, kind, value);
+/// kind: 0 exited(value = code), 1 signaled(value = signal), 2 stopped(value = signal),
+/// 3 continued.
+pub type Report = (i32, i32, i32);
+
+#[derive(Default)]
+pub struct FakeKernel {
+    /// reports `waitpid(-1, ..)` will hand out, in order
+    pub queue: VecDeque<Report>,
+    /// a blocking wait was issued while the queue was empty
+    pub blocked_on_empty: bool,
+    /// every group the code handed the terminal to, in order
+    pub tty_log: Vec<i32>,
+    /// number of reports handed out
+    pub consumed: usize,
+}
+
+lazy_static! {
+    static ref FAKE: Mutex<Option<FakeKernel>> = Mutex::new(None);
+}
+
+pub fn install_fake_kernel() {
+    *FAKE.lock().unwrap() = Some(FakeKernel::default());
+    crate::signals::verif_clear_maps();
+}
+
+pub fn remove_fake_kernel() {
+    *FAKE.lock().unwrap() = None;
+}
+
+pub fn fake_kernel_installed() -> bool {
+    FAKE.lock().map(|g| g.is_some()).unwrap_or(false)
+}
+
+pub fn fake_push(report: Report) {
+    if let Some(k) = FAKE.lock().unwrap().as_mut() {
+        k.queue.push_back(report);
+    }
+}
+
+/// (queue length, blocked_on_empty, consumed, tty_log)
+pub fn fake_state() -> (usize, bool, usize, Vec<i32>) {
+    match FAKE.lock().unwrap().as_ref() {
+        Some(k) => (k.queue.len(), k.blocked_on_empty, k.consumed, k.tty_log.clone()),
+        None => (0, false, 0, Vec::new()),
+    }
+}
+
+pub fn fake_reset_flags() {
+    if let Some(k) = FAKE.lock().unwrap().as_mut() {
+        k.blocked_on_empty = false;
+        k.consumed = 0;
+        k.queue.clear();
+    }
+}
+
+fn to_ws(r: Report) -> crate::types::WaitStatus {
+    match r.1 {
+        0 => crate::types::WaitStatus::from_exited(r.0, r.2),
+        1 => crate::types::WaitStatus::from_signaled(r.0, r.2),
+        2 => crate::types::WaitStatus::from_stopped(r.0, r.2),
+        _ => crate::types::WaitStatus::from_continuted(r.0),
+    }
+}
+
+/// Called first thing by `jobc::waitpidx`. `None` = no fake kernel, use the real one.
+/// With the fake kernel: hands out the next queued report; an empty queue yields
+/// "no child has changed state" for a non-blocking wait and ECHILD for a blocking one
+/// (recorded in `blocked_on_empty`: the real call would have blocked here).
+pub fn next_wait(_wpid: i32, block: bool) -> Option<crate::types::WaitStatus> {
+    let mut g = FAKE.lock().unwrap();
+    let k = g.as_mut()?;
+    match k.queue.pop_front() {
+        Some(r) => {
+            k.consumed += 1;
+            Some(to_ws(r))
+        }
+        None => {
+            if block {
+                k.blocked_on_empty = true;
+                Some(crate::types::WaitStatus::from_error(nix::Error::ECHILD as i32))
+            } else {
+                Some(crate::types::WaitStatus::empty())
+            }
+        }
+    }
+}
+
+/// Fake counterpart of the `waitpid(-1, WNOHANG)` loop of `signals::handle_sigchld`.
+pub fn drain_fake_sigchld() {
+    loop {
+        let r = {
+            let mut g = FAKE.lock().unwrap();
+            match g.as_mut() {
+                Some(k) => match k.queue.pop_front() {
+                    Some(r) => {
+                        k.consumed += 1;
+                        Some(r)
+                    }
+                    None => None,
+                },
+                None => None,
+            }
+        };
+        match r {
+            Some((pid, 0, code)) => crate::signals::insert_reap_map(pid, code),
+            Some((pid, 1, sig)) => crate::signals::killed_map_insert(pid, sig),
+            Some((pid, 2, _)) => crate::signals::insert_stopped_map(pid),
+            Some((pid, _, _)) => crate::signals::insert_cont_map(pid),
+            None => break,
+        }
+    }
+}
+
+pub fn fake_give_terminal_to(gid: i32) -> bool {
+    if let Some(k) = FAKE.lock().unwrap().as_mut() {
+        k.tty_log.push(gid);
+    }
+    true
+}
